@@ -684,6 +684,40 @@ func ruleTextIdentity(p *Prog, l *Ledger, tier string) {
 	if n == 0 {
 		l.Fail(rule, "Subtitles.Unfragment", rule+"|Subtitles.Unfragment|compare|absent", p.Pos(fn.Pos()), "Subtitles.Unfragment no longer decides sameness by an equality of two Item.String() results: the text identity of the property is the rendered string (runs of a line concatenated, lines joined); any finer comparison (run by run, line by line) leaves cues that read the same but are cut differently unmerged")
 	}
+	// the identity strings are built with strings.Join: every line / run contributes, and lines are
+	// separated by a non-empty separator wherever they are (a separator placed by looking at what has
+	// been accumulated so far drops leading empty lines from the identity)
+	for _, spec := range []struct {
+		fn     string
+		nonEmp bool
+	}{{"Item.String", true}, {"Line.String", false}} {
+		f := p.Fn(spec.fn)
+		if f == nil {
+			continue
+		}
+		key := rule + "|join|" + spec.fn
+		good, why := true, ""
+		for _, b := range f.Blocks {
+			r, ok := b.Instrs[len(b.Instrs)-1].(*ssa.Return)
+			if !ok {
+				continue
+			}
+			c, ok := r.Results[0].(*ssa.Call)
+			if !ok || calleeName(&c.Call) != "strings.Join" {
+				good, why = false, "it no longer returns strings.Join(…)"
+				continue
+			}
+			sep, isC := constStr(c.Call.Args[1])
+			if !isC || (spec.nonEmp && sep == "") {
+				good, why = false, "the separator is not a non-empty constant"
+			}
+		}
+		if good {
+			l.Prove(rule, spec.fn, key, "", spec.fn+" is strings.Join over one string per element")
+		} else {
+			l.Undecide(rule, spec.fn, key, p.Pos(f.Pos()), spec.fn+" is the text identity Unfragment compares, and "+why+": whether every line still contributes (with a separator at every position) cannot be read off its shape")
+		}
+	}
 	// the text function reads every run's text
 	read := fieldsRead(p, []*ssa.Function{str})
 	for _, f := range []string{"Item.Lines", "Line.Items", "LineItem.Text"} {
@@ -1130,6 +1164,34 @@ func ruleComplementaryExit(p *Prog, l *Ledger, tier string) {
 					if merge[k] {
 						ok = false
 						why = fmt.Sprintf("the scan is abandoned at %s when EndAt %c StartAt, a relation under which the two cues touch or overlap and must be merged", p.Pos(c.iff.Cond.Pos()), k)
+					}
+				}
+			}
+		}
+		// the exit test must see the extended end: when the loop stores into Item.EndAt (the merge
+		// lengthens the kept cue), an EndAt operand of the exit test loaded outside that loop is stale
+		if ok && lp != nil {
+			storesEnd := false
+			for b := range lp {
+				for _, ins := range b.Instrs {
+					if st, isSt := ins.(*ssa.Store); isSt {
+						if t, f := fieldOfAddr(st.Addr); t == "Item" && f == "EndAt" {
+							storesEnd = true
+						}
+					}
+				}
+			}
+			for _, c := range cmps {
+				if c.pair != pair || !lp[c.iff.Block()] || !storesEnd {
+					continue
+				}
+				bo := c.iff.Cond.(*ssa.BinOp)
+				for _, opnd := range []ssa.Value{bo.X, bo.Y} {
+					if _, f, _ := loadedField(opnd); f == "EndAt" {
+						if ins, isIns := opnd.(ssa.Instruction); isIns && !lp[ins.Block()] {
+							ok = false
+							why = fmt.Sprintf("the early-exit test at %s compares an EndAt that was loaded before the scan loop (at %s), while the loop extends that cue's EndAt when it merges: after a merge the test still sees the old end and abandons the scan although later cues touch the extended cue", p.Pos(bo.Pos()), p.Pos(opnd.Pos()))
+						}
 					}
 				}
 			}
